@@ -1485,9 +1485,13 @@ class EdgeAssemblyChanger(GeometryChanger):
                 core.add(a, spatialLocator)
                 self._newAssembliesAdded.append(a)
 
-        parameters.ALL_DEFINITIONS.resetAssignmentFlag(
-            SINCE_LAST_GEOMETRY_TRANSFORMATION
-        )
+        # Only start a new "since last geometry transformation" period when the core holds edge
+        # assemblies: removeEdgeAssemblies sets the flags again only when it removes some, and
+        # later conversions rely on them to find the parameters they have to scale.
+        if core.getAssembliesOnSymmetryLine(grids.BOUNDARY_120_DEGREES):
+            parameters.ALL_DEFINITIONS.resetAssignmentFlag(
+                SINCE_LAST_GEOMETRY_TRANSFORMATION
+            )
 
     def removeEdgeAssemblies(self, core):
         """
